@@ -433,6 +433,42 @@ func runC16(c *core.Ctx) {
 		}
 		bound = append(bound, fmt.Sprintf("%s<=%d", fam.name, fam.max))
 	}
+	// every escape sequence inside strings of both quote styles, with text before/after it and after the string
+	{
+		var escs []string
+		for b := 0; b < 256; b++ {
+			escs = append(escs, fmt.Sprintf("\\x%02x", b), fmt.Sprintf("\\x%02X", b), "\\"+string([]byte{byte(b)}))
+		}
+		for _, u := range []string{"0000", "0022", "005c", "000a", "0041", "00e9", "d800", "dfff", "ffff", "fffd", "2028"} {
+			escs = append(escs, "\\u"+u, "\\U0000"+u)
+		}
+		escs = append(escs, "\\U0001F600", "\\U00110000", "\\000", "\\042", "\\134", "\\377", "\\x2", "\\x", "\\u00", "\\U0000")
+		n := 0
+		for _, e := range escs {
+			for _, q := range []string{"\"", "`"} {
+				for _, pre := range []string{"", "a"} {
+					for _, post := range []string{"", "b", "\\"} {
+						for _, tail := range []string{"", " + t", q, "\n"} {
+							in := []byte(q + pre + e + post + q + tail)
+							if !c.MineNoDedup("esc", string(in)) {
+								continue
+							}
+							n++
+							for _, lm := range []bool{false, true} {
+								v := c.Run(func() *core.Viol { return c16One(st, in, lm, "esc") })
+								out := c16Shape(in, lm)
+								if v != nil {
+									out = v.Class
+								}
+								c.CountNT("esc:"+printableKey(in), out, true)
+							}
+						}
+					}
+				}
+			}
+		}
+		bound = append(bound, fmt.Sprintf("%d escape spellings (\\xHH for all 256 values in both cases, backslash + every byte, \\u/\\U boundary values, octal, truncated) x 2 quote styles x 2 prefixes x 3 suffixes x 4 continuations", len(escs)))
+	}
 	// keywords and builtins alone and followed by each significant byte
 	for kw := range c16Keywords {
 		for _, b := range append([]byte{}, c16Sig...) {
